@@ -218,7 +218,9 @@ func datagram(r *rng.R, class string, serial, card uint32) []byte {
 	case "short":
 		b = b[:rng.Pick(r, 1, 8, 63)]
 	case "long":
-		b = append(b, r.Bytes(rng.Pick(r, 1, 64))...)
+		b = append(b, r.Bytes(1)...)
+	case "long64":
+		b = append(b, r.Bytes(64)...)
 	case "wrong-serial":
 		binary.LittleEndian.PutUint32(b[4:8], serial+1)
 	case "serial-0":
